@@ -13,6 +13,8 @@ import hashlib
 import os as _os
 # generator v2 = C++ programs + reference cycles through several records (switched on per default once soaked)
 GEN2 = _os.environ.get("VERIF_CXX", "1") == "1"
+# construct families (with reader defects of their own) present in the program generated last in this process
+LAST_FEATURES = set()
 
 class Type(object):
     named = False
@@ -300,6 +302,7 @@ class Program(object):
         self.order_seed = 0     # permutes definition order inside TUs
         self.soname = None
         self.tu_nodebug = set()     # TUs compiled without -g
+        self.features = set()       # construct families present (see LAST_FEATURES)
 
     def clone(self):
         return copy.deepcopy(self)
@@ -690,6 +693,7 @@ class Gen(object):
         self.p = Program(opts.lang, nonce)
         self.p.ntus = opts.ntus
         self.k = 0
+        self.anon_on = False
 
     def name(self, prefix):
         self.k += 1
@@ -813,7 +817,8 @@ class Gen(object):
             to = Array(self.scalar(), [r.randint(1, 4)])
         elif x < 0.65:
             to = self.pick_named((Record, Typedef, Enum)) or self.scalar()
-        elif x < 0.8 and self.o.anon_compound and self.o.lang == "c":
+        elif x < 0.8 and self.anon_on and self.o.lang == "c":
+            self.p.features.add("naming-typedefs")
             # the C idiom 'typedef struct { ... } name;' / 'typedef enum { ... } name;' (a "naming typedef")
             if r.random() < 0.75:
                 to = Record("struct" if (r.random() < 0.8 or not self.o.unions) else "union", None, [])
@@ -850,7 +855,7 @@ class Gen(object):
                 fields.append(Field(None if r.random() < 0.6 else self.name("m"), inner))
             elif x < 0.35 and self.o.recursive:
                 fields.append(Field(self.name("m"), Pointer(rec) if rec.name else Pointer(Void())))
-            elif x < 0.43 and self.o.anon_compound and depth < 2 and (self.o.lang == "c" or (depth == 0 and rec.name)):
+            elif x < 0.43 and self.anon_on and depth < 2 and (self.o.lang == "c" or (depth == 0 and rec.name)):
                 # anonymous types in compound positions: pointer to / const / array of an anonymous struct or union, anonymous enums
                 y = r.random()
                 if y < 0.3:
@@ -868,6 +873,7 @@ class Gen(object):
                     t = Array(inner, [r.randint(1, 3)])
                 else:
                     t = inner if isinstance(inner, Enum) else Pointer(inner)
+                self.p.features.add("anonymous-compound-types")
                 fields.append(Field(self.name("m"), t))
             else:
                 # C++: a class with virtual functions / bases is not allowed inside a union or an anonymous aggregate
@@ -993,6 +999,8 @@ class Gen(object):
 
     def run(self):
         o, r = self.o, self.r
+        # anonymous types in compound positions / naming typedefs: in one program out of seven only
+        self.anon_on = bool(o.anon_compound) and r.random() < 0.15
         for i in range(o.ntypes):
             x = r.random()
             if x < 0.55 or not self.p.types:
@@ -1103,7 +1111,10 @@ def generate(rng, opts=None, nonce=None):
     opts = opts or GenOpts()
     nonce = nonce or "%04x" % rng.randrange(16 ** 4)
     g = Gen(rng, opts, nonce)
-    return g.run()
+    p = g.run()
+    LAST_FEATURES.clear()
+    LAST_FEATURES.update(p.features)
+    return p
 
 
 if GEN2:     # C++ side of the generator
